@@ -19,12 +19,17 @@ RULE = ('path strings are assembled from component classes (empty, ., .., 1-/2-/
         'depth <= 3 are applied to both PosixPath and WindowsPath and to the model. Thorough tier adds the exhaustive sweep '
         'of all strings with <= 4 components over a 7-component alphabet x 3 prefix forms x 2 separators x trailing. A case '
         'is non-trivial when the string contains a special component (empty, ., ..), a backslash, a drive or a trailing '
-        'separator; distinct by exact text of the expression.')
+        'separator; distinct by exact text of the expression. String entry points (Path.ensure, objutils.objectify, the '
+        'builtins relpath/buildpath/relname/generic_file/source_file/header_file/auto_file/directory/header_directory in a '
+        'real BuildContext): the same strings, a third with white space (space, tab, LF, CRLF, VT, NBSP, EM SPACE) put at the '
+        'beginning, the end, both ends or next to a separator; non-trivial when the string differs from its stripped form.')
 TRUSTED = ('the model mirrors ntpath.splitdrive/isabs of CPython 3.12 and the documented posixpath.normpath; the '
            'correspondence stage re-validates this against the running interpreter on every run',
            'os.path.expanduser is outside the model (no generated string starts with a tilde)',
            'direct law checks on the implementation use posixpath.normpath/join of the running interpreter as the notion of '
-           'ordinary path joining')
+           'ordinary path joining',
+           'string entry points: the constructor Path(s, root, ...) of the tree under test is the reference for what a string '
+           'denotes (its own laws are checked by the path-law oracle)')
 EXPLANATION = ''
 
 # ------------------------------------------------------------------------------------------------ generators
@@ -1196,7 +1201,11 @@ def stage_oracle_entry(rep, rng, n, ectx):
                 if nm in ('directory', 'header_directory') and got is not None and want is not None:
                     # the file object of a directory carries the path as given; only the location is compared
                     if not (got.root == want.root and got.suffix == want.suffix):
-                        fail('builtin_string', info, '%s(%r).path = %r, but Path(s, script directory) = %r' % (nm, s, got, want))
+                        # recorded finding: the accepted relative path with a drive-like first component is rebuilt from its
+                        # suffix and read as an ABSOLUTE path with that very text
+                        fail('builtin_string', info, '%s(%r).path = %r, but Path(s, script directory) = %r' % (nm, s, got, want),
+                             ('relative-suffix-drive-like',) if ('relative-suffix-drive-like' in classes_of(want) and
+                                                                 _sig_reparsed(want, '', got)) else ())
                     continue
                 agree('builtin_string', info, got, gerr, want, werr)
             if wsrc is not None and not wsrc.directory:
